@@ -133,6 +133,22 @@ int main(int argc, char** argv) {
     }
     return (T)worst; });
 #endif
+#if IN_PART(1)
+  // mix with an element type that differs from the weight type (integer vectors, float / double weights: a change of element type the tracer
+  // cannot follow): the vector overloads (scalar weight, vector weight) equal the scalar overload per component.  Exploration on the real code.
+  add_prop("p_mix_mixed", 9, 0.0, 0.0, [](auto const* u) { using T = TY(u); int bad = 0;
+    auto go = [&](auto e0, auto w0) { using E = decltype(e0); using W = decltype(w0);
+      E x[4], y[4]; for (int i = 0; i < 4; ++i) { x[i] = static_cast<E>(std::fmod(std::fabs((double)u[i]) * 9.0, 40.0)); y[i] = static_cast<E>(std::fmod(std::fabs((double)u[4 + i]) * 11.0, 40.0)); }
+      W const ws[5] = { W(0), W(1), W(0.5), W(0.25), static_cast<W>(std::fmod(std::fabs((double)u[8]), 1.0)) };
+      for (W a : ws) {
+        glm::vec<4, E> x4(x[0], x[1], x[2], x[3]), y4(y[0], y[1], y[2], y[3]); glm::vec<3, E> x3(x4), y3(y4); glm::vec<2, E> x2(x4), y2(y4); glm::vec<1, E> x1(x4), y1(y4);
+        auto r4 = glm::mix(x4, y4, a); auto r3 = glm::mix(x3, y3, a); auto r2 = glm::mix(x2, y2, a); auto r1 = glm::mix(x1, y1, a);
+        auto v4 = glm::mix(x4, y4, glm::vec<4, W>(a)); auto v3 = glm::mix(x3, y3, glm::vec<3, W>(a));
+        for (int i = 0; i < 4; ++i) { E ref = glm::mix(x[i], y[i], a); bad += !(r4[i] == ref) + !(v4[i] == ref); if (i < 3) bad += !(r3[i] == ref) + !(v3[i] == ref); if (i < 2) bad += !(r2[i] == ref); if (i < 1) bad += !(r1[i] == ref); }
+      } };
+    go(int(), float()); go(int(), double()); go((unsigned)0, float()); go((unsigned)0, double()); go((long long)0, double()); go((short)0, float()); go((signed char)0, float()); go(float(), double()); go(double(), float());
+    return (T)bad; });
+#endif
 #if IN_PART(8)
   add_unit("mabsJ", 4, 4, [](auto const* x, auto* o) { using T = TY(o); stm(o, glm::abs(ldm<2, 2, T>(x))); });
   MRELJ("mequalJ", glm::equal(a, b), 8) MRELJ("mnotEqualJ", glm::notEqual(a, b), 8)
